@@ -190,6 +190,14 @@ func c08RuntimeTyped(r *rt.Rec, rng *rand.Rand, k, n, constructs int) {
 			r.Nontrivial(all[i])
 		}
 	}
+	reps := gen.RepeatedNameStatements()
+	for i := k; i < len(reps); i += n {
+		sg := c08Exec(r, reps[i], 1+i%2)
+		if sg >= bq.StageExecute {
+			r.Nontrivial(reps[i])
+			r.Count("repeated_name_statements_executed", 1)
+		}
+	}
 	nulls := gen.NullReuseStatements()
 	for i := k; i < len(nulls); i += n {
 		sg := c08Exec(r, nulls[i], 1+i%2)
@@ -282,7 +290,7 @@ func init() {
 	register(&rt.Check{
 		ID:    "C08",
 		Level: "exploration",
-		Rule: "statement texts against an empty store, a populated memory store and the populated store wrapped in the memoizer: (a) every token sequence up to length L over the 55 token kinds rendered to text (L=2 quick, 3 thorough; complete), (b) generated statements of all eight kinds (vocabulary hitting and missing the data, LIMIT 0/1/-1/2^63-1/float/text, aggregates over empty patterns, bindings reused across S/P/O/ID/TYPE/AT positions, OPTIONAL, bounds), (b2) statements that go wrong only while rows are processed: aggregates (sum / count / count distinct) over columns mixing numeric literals with nodes, text, predicates and NULL in both FROM orders, CONSTRUCT / DECONSTRUCT over satisfiable patterns with exactly one ill-kinded binding in one template slot (first or later pair), bindings left NULL by an OPTIONAL clause reused as subject / predicate / object / anchor / bound limit and in HAVING, ORDER BY, GROUP BY, aggregates and templates, (b3) every prefix of a statement that ends right after a token, two statements in one text, a statement followed by stray tokens, (c) character- and token-level mutations of (b), (d) random bytes, random UTF-8 and random keyword salad; a sample also under -race; " +
+		Rule: "statement texts against an empty store, a populated memory store and the populated store wrapped in the memoizer: (a) every token sequence up to length L over the 55 token kinds rendered to text (L=2 quick, 3 thorough; complete), (b) generated statements of all eight kinds (vocabulary hitting and missing the data, LIMIT 0/1/-1/2^63-1/float/text, aggregates over empty patterns, bindings reused across S/P/O/ID/TYPE/AT positions, OPTIONAL, bounds), (b2) statements that go wrong only while rows are processed: aggregates (sum / count / count distinct) over columns mixing numeric literals with nodes, text, predicates and NULL in both FROM orders, CONSTRUCT / DECONSTRUCT over satisfiable patterns with exactly one ill-kinded binding in one template slot (first or later pair), lists that repeat a name (ORDER BY / GROUP BY keys, projections, graphs) with aliases on every projection, bindings left NULL by an OPTIONAL clause reused as subject / predicate / object / anchor / bound limit and in HAVING, ORDER BY, GROUP BY, aggregates and templates, (b3) every prefix of a statement that ends right after a token, two statements in one text, a statement followed by stray tokens, (c) character- and token-level mutations of (b), (d) random bytes, random UTF-8 and random keyword salad; a sample also under -race; " +
 			"monitor per statement, in a journaling worker process: recover() in the calling goroutine, process exit (panic in an engine goroutine, fatal error, log.Fatal), all-goroutines-blocked and hard watchdog, goroutine-leak snapshot after return, table-xor-error; non-trivial = reached Execute (parsed and planned) or was rejected after >=3 tokens; distinct by text",
 		Assume: []string{"termination is restated as bounded progress (hard watchdog 120 s per batch, cases take milliseconds)", "a goroutine counts as started on behalf of the call if it was created by badwolf code after the pre-call snapshot"},
 		Floor:  500,
